@@ -30,6 +30,11 @@ int vseq = 0;
 mapping pol (string kind) { return pols[kind]; }
 int next_v () { return ++vseq; }
 int nest = 0;
+// the objects running ops, innermost last (run_op pushes / pops): the creating object of a creator_file call
+string *actors = ({ });
+void push_actor (string o) { actors += ({ o }); }
+void pop_actor () { if (sizeof (actors)) actors = actors[0..sizeof (actors) - 2]; }
+string cur_actor () { return sizeof (actors) ? actors[sizeof (actors) - 1] : "?"; }
 void set_script (string key, string ops) { if (ops == "-") map_delete (scripts, key); else scripts[key] = ops; }
 string script (string key) { return scripts[key]; }
 void enter () { nest++; }
@@ -40,6 +45,7 @@ void act (string oid, string op) {
   mixed e;
   o = get (oid);
   nest = 0;
+  actors = ({ });
   if (!o) { VL ("do " + oid + " " + op); VL ("r nobj"); snap (); return; }
   e = catch (o->run_op (op));
   if (e) { VL ("r uncaught"); snap (); }
